@@ -19,6 +19,19 @@ def net_to_params(net):
     return eth, wlan
 
 
+def oracle_keys(kind, payload):
+    """The names the real decoder (on a fresh device) produces from this payload; None when it refuses it."""
+    from pyplumio.devices.ecomax import EcoMAX
+    from pyplumio.structures.network_info import NetworkInfo
+    from harness import frames_impl as FI
+    try:
+        fr = FI.frame_class(kind)(message=bytearray(payload))
+        fr.assign_to(EcoMAX(asyncio.Queue(), network=NetworkInfo()))
+        return sorted(str(k) for k in fr.data) if fr.data is not None else None
+    except Exception:  # noqa: BLE001
+        return None
+
+
 def decodable_oracle(kind, payload):
     """Does the real decoder accept this payload (on a fresh device)?"""
     from pyplumio.devices.ecomax import EcoMAX
@@ -70,7 +83,7 @@ async def _run(frames, net, consumers, paced=False):
             await asyncio.wait_for(proto.shutdown(), timeout=600)
         except asyncio.TimeoutError:
             shutdown_ok = False
-        return {"calls": rec.calls, "sent": [list(b) for b in sent], "unfinished": unfinished, "alive": alive,
+        return {"effects": {t: sorted(str(n) for n in ns) for t, ns in rec.effects.items()}, "calls": rec.calls, "sent": [list(b) for b in sent], "unfinished": unfinished, "alive": alive,
                 "producer_alive": producer_alive, "shutdown_ok": shutdown_ok, "shutdown_s": loop.time() - t0,
                 "devices": len(rec.objects)}
     finally:
@@ -80,11 +93,11 @@ async def _run(frames, net, consumers, paced=False):
 class C09(Prop):
     id = "C09"
     prop_file = "Props/C09.v"
-    rule = ("sequences of 1-14 frames through the real AsyncProtocol (fake transport, virtual-time loop): captured valid frames of 8 decodable "
+    rule = ("sequences of 1-24 frames (tag = econet type byte) through the real AsyncProtocol (fake transport, virtual-time loop): captured valid frames of 8 decodable "
             "kinds, controller requests (program version, check device), frames with a valid envelope but an undecodable payload (every "
             "truncation point of a captured payload, random bytes; decodability decided by the real decoder on a fresh device), frames from "
             "senders without a device class (0x56, 0x00) and from ecoSTER; 1-3 consumers, often more bad frames than consumers; frames arrive in "
-            "one burst or one at a time with the loop settled in between (paced).  Non-trivial = "
+            "one burst or one at a time with the loop settled in between (paced); a quarter of the sequences contain a run of 2-8 undecodable frames of one kind followed by valid frames of that kind; `delivered` = handle_frame called with the frame and every name its payload decodes to dispatched on the device.  Non-trivial = "
             "at least one undecodable / device-less frame followed by a valid one; distinct by case content.")
     assumptions = ["whether a payload decodes is an oracle (the real decoder, evaluated on a fresh device)",
                    "`answered` = the reply is transmitted or waiting in the write queue when the input ends"]
@@ -115,6 +128,19 @@ class C09(Prop):
                     f = {"sender": 0x51, "kind": rng.choice([0x40, 0x30, 0xBA]), "payload": list(cap["password"][1])}
                 f["tag"] = i + 1
                 frames.append(f)
+            if rng.random() < 0.25:
+                # a run of undecodable frames of ONE kind (more than a few in a row), then valid frames of that kind again
+                nm = rng.choice(names)
+                kind, payload = cap[nm]
+                run = []
+                for _ in range(rng.randrange(2, 9)):
+                    cut = rng.randrange(0, len(payload))
+                    run.append({"sender": 0x45, "kind": kind, "payload": list(payload[:cut])})
+                run += [{"sender": 0x45, "kind": kind, "payload": list(payload)} for _ in range(rng.randrange(1, 3))]
+                at = rng.randrange(0, len(frames) + 1)
+                frames = frames[:at] + run + frames[at:]
+                for i, f in enumerate(frames):
+                    f["tag"] = i + 1
             net = [[rng.randrange(256) for _ in range(4)] for _ in range(3)] + [rng.random() < 0.5] + \
                   [[rng.randrange(256) for _ in range(4)] for _ in range(3)] + \
                   [True, rng.randrange(5), rng.randrange(101), rng.random() < 0.5, list(rng.choice(["", "home", "zażółć", "x" * 32]).encode())]
@@ -132,7 +158,10 @@ class C09(Prop):
         pf = self._pframes(c)
         r = vloop.run(_run, c["frames"], c["net"], c["consumers"], c.get("paced", False))
         valid_tags = {p[0] for p in pf if p[3] and p[1] in (0x45, 0x51)}
-        handed_valid = [t for _, t, _ in r["calls"] if t in valid_tags]
+        # delivered = handle_frame was called with it AND every name its payload decodes to was dispatched on the device
+        keys = {f["tag"]: (oracle_keys(f["kind"], bytes(f["payload"])) or []) for f in c["frames"] if f["tag"] in valid_tags and f["sender"] == 0x45}
+        took = lambda t: set(keys.get(t, [])) <= set(r["effects"].get(t, []))
+        handed_valid = [t for _, t, _ in r["calls"] if t in valid_tags and took(t)]
         replies = []
         payload_ok = True
         expected_net = model.call("encode_netinfo", c["net"])
